@@ -22,6 +22,11 @@ THEOREMS = {
         'RsomeV.C05.normAxis_spec', 'RsomeV.C05.sumAxisGroups_flat', 'RsomeV.C05.sumAxisGroups_partition',
         'RsomeV.C05.diagIdx_spec', 'RsomeV.C05.diagIdx_order', 'RsomeV.C05.swapLastSrc_spec', 'RsomeV.C05.concatSrc_spec',
     ],
+    'RsomeV.Props.C05Tri': ['RsomeV.C05Tri.tril_eval', 'RsomeV.C05Tri.triu_eval', 'RsomeV.C05Tri.diagFill_eval', 'RsomeV.C05Tri.trace_eval',
+                            'RsomeV.C05Tri.tril_isSome_iff', 'RsomeV.C05Tri.triu_isSome_iff', 'RsomeV.C05Tri.diagFill_isSome_iff',
+                            'RsomeV.C05Tri.trace_isSome_iff', 'RsomeV.C05Tri.tril_add_triu_eval', 'RsomeV.C05Tri.tril_idem',
+                            'RsomeV.C05Tri.triu_idem', 'RsomeV.C05Tri.tril_triu_eq_diagFill', 'RsomeV.C05Tri.post_isSome_iff',
+                            'RsomeV.C05Tri.aff_tri_correct'],
 }
 RULE = ("random expression trees of depth <= 5 over 1-2 decision arrays and 1-2 random arrays of rank 0-3 with every operator of "
         "the property (+ - * @ unary minus, indexing with ints/negatives/stepped slices/lists/masks/ellipsis/newaxis, reshape, "
@@ -46,6 +51,7 @@ def classify(desc, detail):
 def tree_case(ctx, seed, depth):
     r = np.random.default_rng(seed)
     env = AR.Env(r)
+    AR.Node.created = made = []
     try:
         n = AR.random_tree(env, depth)
     except AR.OpError as ex:
@@ -73,6 +79,17 @@ def tree_case(ctx, seed, depth):
     if not np.allclose(np.asarray(val, dtype=float).reshape(n.v.shape), n.v, rtol=1e-9, atol=1e-9):
         ctx.hit('value:' + classify(n.desc, None), {"rsome": np.asarray(val).tolist(), "numpy": n.v.tolist()}, case)
         return
+    # operands are values: every intermediate expression still denotes what it denoted when it was built
+    AR.Node.created = None
+    inner = [o for o in made if o is not n and o.kind != 'const' and o.v.size > 0]
+    for o in inner[-6:]:
+        try:
+            ov = AR.evaluate(o.e, xv, zv)
+        except Exception as ex:
+            ctx.hit('operand-changed:evaluation-error:' + type(ex).__name__, {"operand": o.desc, "error": str(ex)[:200]}, case); return
+        if tuple(AR.shape_of(o.e)) != tuple(o.v.shape) or not np.allclose(np.asarray(ov, dtype=float).reshape(o.v.shape), o.v, rtol=1e-9, atol=1e-9):
+            ctx.hit('operand-changed-by-later-operation', {"operand": o.desc, "now": np.asarray(ov).tolist(), "was": o.v.tolist()}, case); return
+    ctx.count('operands-rechecked', len(inner[-6:]))
     ctx.sample(case, limit=5)
 
 
@@ -122,12 +139,74 @@ def run(ctx):
         late_rvar_biaffine(ctx, int(ctx.rng.integers(2 ** 31)))
     # the expression language of Props/C05Expr (compile_correct): the Lean compiler vs the real API, linear and constant parts entry by entry
     C.run_difftest(ctx, 'test_aff_expr.py', ctx.n(400, 6000), 'array algebra: compiled (linear, const) of random expression trees')
+    C.run_difftest(ctx, 'test_aff_tri.py', ctx.n(150, 3000), 'tril / triu / trace / diag(fill) of array expressions: compiled (linear, const), NumPy values, operands untouched')
     matmul_probe(ctx)
+    for k in range(ctx.n(400, 8000)):
+        tri_family(ctx, int(ctx.rng.integers(2 ** 31)))
     for k in range(ctx.n(2500, 60000)):
         seed = int(ctx.rng.integers(2 ** 31))
         tree_case(ctx, seed, int(ctx.rng.integers(1, 6)))
     ctx.search_cases = ctx.evaluations
     components(ctx)
+
+
+def tri_family(ctx, seed):
+    """tril / triu / diag(fill) / trace of 2-D affine expressions with non-zero constants, every offset, square and non-square
+    shapes, on variables, slices and derived expressions; the operand must still denote the same array afterwards"""
+    import rsome as rso
+    from rsome import ro
+    r = np.random.default_rng(seed)
+    ctx.search_cases += 1; ctx.evaluations += 1
+    rows, cols = int(r.integers(1, 5)), int(r.integers(1, 5))
+    m = ro.Model(); x = m.dvar((rows, cols)); w = m.dvar((cols, rows))
+    xv = r.integers(-3, 4, (rows, cols)).astype(float); wv = r.integers(-3, 4, (cols, rows)).astype(float)
+    vec = np.zeros(m.rc_model.last); vec[x.first:x.first + x.size] = xv.reshape(-1); vec[w.first:w.first + w.size] = wv.reshape(-1)
+    cst = r.integers(-3, 4, (rows, cols)).astype(float)
+    form = str(r.choice(['var', 'affine', 'affine', 'scaled', 'transposed', 'slice']))
+    if form == 'var':
+        e, v = x, xv
+    elif form == 'affine':
+        e, v = x + cst, xv + cst
+    elif form == 'scaled':
+        e, v = cst * x - 2 * cst + 1, cst * xv - 2 * cst + 1
+    elif form == 'transposed':
+        e, v = (w + cst.T).T, (wv + cst.T).T
+    else:
+        e, v = (x + cst)[:, ::-1], (xv + cst)[:, ::-1]
+    op = str(r.choice(['tril', 'triu', 'diagfill', 'diag', 'trace']))
+    k = int(r.integers(-3, 4))
+    case = {"seed": seed, "shape": [rows, cols], "form": form, "op": op, "k": k}
+    try:
+        if op == 'tril':
+            out, ref = rso.tril(e, k), np.tril(v, k)
+        elif op == 'triu':
+            out, ref = rso.triu(e, k), np.triu(v, k)
+        elif op == 'trace':
+            out, ref = rso.trace(e), np.trace(v)
+        elif op == 'diag':
+            ref = np.diag(v, k)
+            if ref.size == 0:
+                ctx.count('tri:empty'); return
+            out = rso.diag(e, k)
+        else:
+            mask = np.zeros((rows, cols), bool)
+            for i in range(rows):
+                if 0 <= i + k < cols:
+                    mask[i, i + k] = True
+            if not mask.any():
+                ctx.count('tri:empty'); return
+            out, ref = rso.diag(e, k, fill=True), np.where(mask, v, 0.0)
+    except Exception as ex:
+        ctx.count('tri:raises:%s:%s' % (op, type(ex).__name__)); return
+    val = np.asarray(AR.evaluate(out, vec, np.zeros(0)), dtype=float)
+    if tuple(AR.shape_of(out)) != tuple(np.shape(ref)):
+        ctx.hit('shape:' + op, {"rsome_shape": list(AR.shape_of(out)), "numpy_shape": list(np.shape(ref))}, case); return
+    if not np.allclose(val.reshape(np.shape(ref)), ref):
+        ctx.hit('value:' + op, {"rsome": val.tolist(), "numpy": np.asarray(ref).tolist()}, case); return
+    again = np.asarray(AR.evaluate(e, vec, np.zeros(0)), dtype=float)
+    if tuple(AR.shape_of(e)) != v.shape or not np.allclose(again.reshape(v.shape), v):
+        ctx.hit('operand-changed-by-later-operation', {"operand_now": again.tolist(), "operand_was": v.tolist()}, case); return
+    ctx.count('tri:%s:ok' % op)
 
 
 def late_rvar_biaffine(ctx, seed):
